@@ -93,12 +93,14 @@ later fix touched the same loop; its demonstration was re-run. Defect reports of
 
 ### Round 7 ({len(rows7)} confirmed seeds; {n7first} detected by the first sweep, {n7d} detected now, {len(rows7)-n7d} missed)
 
-Round 7 was a partial round in the last hours, for the eight properties whose checks had changed most during the day
-(C02, C03, C06, C08, C10, C15, C17, C19), with the instructions of rounds 5 and 6. Its purpose was to measure the rules
-written from round 6's *defect reports* (findings 83-99) - rules that no seed had ever been run against - and it
-showed what every round has shown: three of the deliveries met an existing rule, one met a rule that existed for the
-sibling property only, the rest went past everything and were each answered by a clause that states the broken
-convention (section 3, "Rules written in round 7"). Its defect reports are findings 100 and 101.
+Round 7 ran in the last hours, in two batches (first the eight properties whose checks had changed most during
+the day, then the other ten), with the instructions of rounds 5 and 6. Its first purpose was to measure the rules written
+from round 6's *defect reports* (findings 83-99) - rules no seed had ever been run against. It showed what every round
+has shown: ten of the 36 deliveries met an existing rule, one met a rule that existed for the sibling property only, the
+rest went past everything and were each answered by a clause that states the broken convention (section 3, "Rules written
+in round 7"). Two lanes of the confirmation run had to be repeated because a timing-sensitive existing test
+(`TestNotary`) and a timing-sensitive demonstration failed once on the loaded machine; both were confirmed on the
+second run. Its defect reports are findings 100-105.
 
 {t7}
 
